@@ -1,7 +1,7 @@
 (* C02/Properties.v — property theorems only.  Each is closed by [exact lemma] and followed by
    [Print Assumptions]. *)
 From RM Require Import C08.Model.
-From RM Require Import C02.Model C02.Documented C02.Proofs1 C02.Proofs2 C02.Proofs3 C02.Proofs4 C02.Proofs5 C02.Proofs6 C02.Proofs7 C02.Proofs8 C02.Proofs9.
+From RM Require Import C02.Model C02.ModelR5 C02.Documented C02.Proofs1 C02.Proofs2 C02.Proofs3 C02.Proofs4 C02.Proofs5 C02.Proofs6 C02.Proofs7 C02.Proofs8 C02.Proofs9 C02.Proofs10.
 Open Scope Z_scope.
 
 (* The layouts regenerated from minidump-common/src/format.rs on this run are the documented ones:
@@ -504,3 +504,130 @@ Proof.
     eapply chain_cons; [discriminate|reflexivity|reflexivity|].
     eapply chain_cons; [discriminate|reflexivity|reflexivity|]. apply chain_nil.
 Qed.
+
+
+(* ------------------------------------------------------------------ round 5: the reader's tables, regenerated from minidump.rs *)
+(* coq/Gen/C02Reader.v is rewritten from minidump/src/minidump.rs on every run (translate/c02_reader.py): the STREAM_TYPE of
+   every `impl MinidumpStream`, the UNIMPLEMENTED_STREAMS table, stream_vendor's limit / mask / arms, the padding arms of
+   read_stream_list, the version table of MinidumpMacCrashInfo::read.
+
+   Every u32 stream type is of exactly one kind: some typed reader serves it (and no two readers claim one type), or
+   unimplemented_streams() lists it, or it has no name (unknown_streams()). *)
+Theorem c02_stream_type_partition :
+  NoDup (map snd RD_IMPLEMENTED) /\
+  forall ty,
+    (is_named ty = true <-> has_reader ty = true \/ is_unimplemented ty = true) /\
+    (has_reader ty = true -> is_unimplemented ty = false).
+Proof. exact stream_type_partition. Qed.
+Print Assumptions c02_stream_type_partition.
+
+(* unimplemented_streams(): exactly the served entries (the last of their type, with its index) whose type is in the table *)
+Theorem c02_unimplemented_streams : forall d ty v,
+  In (ty, v) (unimplemented_streams d) <-> last_entry 0 d ty = Some v /\ In ty RD_UNIMPLEMENTED.
+Proof. exact unimplemented_streams_spec. Qed.
+Print Assumptions c02_unimplemented_streams.
+
+(* all_streams() = the entries a typed reader serves + unimplemented_streams() + unknown_streams(): nothing falls between *)
+Theorem c02_served_classified : forall d p,
+  In p (served_dir d) <->
+  (In p (served_dir d) /\ has_reader (fst p) = true) \/ In p (unimplemented_streams d) \/ In p (unknown_streams d).
+Proof. exact served_classified. Qed.
+Print Assumptions c02_served_classified.
+
+(* the model's stream_vendor and its 0-or-4 list padding rule ARE the regenerated expressions *)
+Theorem c02_reader_expressions_regenerated :
+  (forall ty, stream_vendor ty = stream_vendor_rd ty) /\
+  (forall e esize bs,
+     dec_list_hdr e esize bs =
+     obnd (take 4 bs) (fun hr =>
+       let n := dec_uint e (fst hr) in
+       if zlen bs <? 4 + n * esize then None
+       else match list_pad_skip (zlen bs - (4 + n * esize)) with
+            | Some k => Some (n, skipn (Z.to_nat k) (snd hr))
+            | None => None
+            end)).
+Proof. exact (conj stream_vendor_regenerated list_padding_regenerated). Qed.
+Print Assumptions c02_reader_expressions_regenerated.
+
+Example c02_nonvacuous_stream_types :
+  let d := [(10, (1, 50)); (1197932550, (2, 60)); (4, (3, 70)); (10, (4, 80)); (1299843851, (5, 90)); (32773, (0, 0))] in
+  unimplemented_streams d = [(10, (3, (4, 80))); (32773, (5, (0, 0))); (1197932550, (1, (2, 60)))] /\
+  has_reader 4 = true /\ is_unimplemented 4 = false /\ has_reader 10 = false /\ is_named 1299843851 = false /\
+  list_pad_skip 0 = Some 0 /\ list_pad_skip 4 = Some 4 /\ list_pad_skip 8 = None /\ list_pad_skip 2 = None /\
+  stream_vendor_rd 1197932550 = 1.
+Proof. vm_compute. repeat split. Qed.
+
+(* ------------------------------------------------------------------ round 5: MozMacosCrashInfoStream *)
+(* The stream is a header (stream type, record count, record_start_size, 20 location descriptors) whose first
+   record_count locations each point at a record ANYWHERE in the file: fixed u64 fields of the variant the record's version
+   selects (regenerated table: >= 5, >= 4, >= 1), fields this reader does not know up to record_start_size, the variant's
+   NUL-terminated UTF-8 strings, then whatever a newer writer appends.  If these locations slice to well-formed records of
+   one version, the reader returns exactly these records, in header order, with all their integers and strings — in
+   either byte order, whatever else the file holds, through any directory whose last entry of the type points at the
+   header. *)
+Theorem c02_maccrash_any_placement : forall e all v rest stype start alllocs recs l1 size rva l3,
+  wt L_MINIDUMP_MAC_CRASH_INFO v = true ->
+  vflat v = stype :: zlen recs :: start :: unpairs alllocs ->
+  records_at e all start (firstn (length recs) alllocs) recs ->
+  (forall a b, In a recs -> In b recs -> rec_version a = rec_version b) ->
+  dec_maccrash e all (enc e L_MINIDUMP_MAC_CRASH_INFO v ++ rest) = Some recs /\
+  (slice all rva size = Some (enc e L_MINIDUMP_MAC_CRASH_INFO v ++ rest) ->
+   ~ In ST_MozMacosCrashInfoStream (map fst l3) ->
+   get_stream dec_maccrash e all (l1 ++ (ST_MozMacosCrashInfoStream, (size, rva)) :: l3) ST_MozMacosCrashInfoStream = SOk recs).
+Proof.
+  intros e all v rest stype start alllocs recs l1 size rva l3 H1 H2 H3 H4. split.
+  - exact (maccrash_any_placement e all v rest stype start alllocs recs H1 H2 H3 H4).
+  - exact (maccrash_served e all v rest stype start alllocs recs l1 size rva l3 H1 H2 H3 H4).
+Qed.
+Print Assumptions c02_maccrash_any_placement.
+
+(* the fixed records the table names are the layouts regenerated from format.rs (sequences of u64 fields) *)
+Theorem c02_mac_record_layouts :
+  map (fun x => fst (snd x)) RD_MAC_VERSIONS
+  = [lsize L_MINIDUMP_MAC_CRASH_INFO_RECORD_5; lsize L_MINIDUMP_MAC_CRASH_INFO_RECORD_4; lsize L_MINIDUMP_MAC_CRASH_INFO_RECORD] /\
+  forall e bs,
+  dec_u64s e 2 bs = option_map (fun p => vflat (fst p)) (dec e L_MINIDUMP_MAC_CRASH_INFO_RECORD bs) /\
+  dec_u64s e 4 bs = option_map (fun p => vflat (fst p)) (dec e L_MINIDUMP_MAC_CRASH_INFO_RECORD_4 bs) /\
+  dec_u64s e 5 bs = option_map (fun p => vflat (fst p)) (dec e L_MINIDUMP_MAC_CRASH_INFO_RECORD_5 bs).
+Proof. exact (conj mac_table_layouts mac_record_layouts). Qed.
+Print Assumptions c02_mac_record_layouts.
+
+Definition ex_rec1 : mcrec := {| cr_ints := [1299841025; 5; 7; 1; 0]; cr_strings := [[47; 120]; [109]; []; [226; 152; 131]; []] |}.
+Definition ex_rec2 : mcrec := {| cr_ints := [0; 5; 18446744073709551615; 0; 9]; cr_strings := [[]; []; []; []; [122]] |}.
+Definition ex_gap : list Z := [1; 2; 3; 4; 5; 6; 7; 8].
+Definition ex_machdr (count : Z) : value :=
+  vtuple [VInt 1299841025; VInt count; VInt 48; vtuple (map (fun p => vloc (fst p) (snd p)) ([(61, 258); (54, 204)] ++ repeat (0, 0) 18))].
+(* a big-endian file: 32 bytes, the header, then the SECOND record, then the first (with two trailing bytes) *)
+Definition ex_macfile (count : Z) : list Z :=
+  repeat 7 32 ++ enc BE L_MINIDUMP_MAC_CRASH_INFO (ex_machdr count) ++ rec_bytes BE ex_rec2 ex_gap [] ++ rec_bytes BE ex_rec1 ex_gap [9; 9].
+Example c02_nonvacuous_maccrash :
+  wt L_MINIDUMP_MAC_CRASH_INFO (ex_machdr 2) = true /\
+  records_at BE (ex_macfile 2) 48 [(61, 258); (54, 204)] [ex_rec1; ex_rec2] /\
+  get_stream dec_maccrash BE (ex_macfile 2) [(ST_MozMacosCrashInfoStream, (1, 2)); (ST_MozMacosCrashInfoStream, (172, 32))] ST_MozMacosCrashInfoStream
+    = SOk [ex_rec1; ex_rec2] /\
+  (* a record count beyond the 20 slots reads the 20 (here: 18 empty locations fail) *)
+  get_stream dec_maccrash BE (ex_macfile 99) [(ST_MozMacosCrashInfoStream, (172, 32))] ST_MozMacosCrashInfoStream = SErr /\
+  (* version 4 in a version-5 stream: refused; version 0: passed over; version 3: the base variant *)
+  mac_variant 3 RD_MAC_VERSIONS = Some (1, (16, 0)) /\ mac_variant 0 RD_MAC_VERSIONS = None /\ mac_variant 77 RD_MAC_VERSIONS = Some (5, (40, 5)).
+Proof.
+  split; [vm_compute; reflexivity|]. split; [|vm_compute; repeat split].
+  eapply (ra_cons BE (ex_macfile 2) 48 61 258 ex_rec1 ex_gap [9; 9]); [vm_compute; reflexivity|vm_compute; reflexivity|].
+  eapply (ra_cons BE (ex_macfile 2) 48 54 204 ex_rec2 ex_gap []); [vm_compute; reflexivity|vm_compute; reflexivity|].
+  apply ra_nil.
+Qed.
+
+(* ------------------------------------------------------------------ round 5: the key/value syntax of the Linux text streams *)
+(* linux_list_iter (cpuinfo / status with ':', lsb-release / environ with '='): `key<sep>value` lines, each ended by LF,
+   whose sides carry no LF, no leading / trailing white space and no opening quote, the key without the separator, read
+   back as exactly these pairs, in order, any number of lines (the value may contain the separator, and be empty) *)
+Theorem c02_kv_roundtrip : forall sep l, sep <> 10 -> forallb (wf_kv_line sep) l = true ->
+  kv_pairs sep (kv_text sep l) = l.
+Proof. exact kv_roundtrip. Qed.
+Print Assumptions c02_kv_roundtrip.
+
+Example c02_nonvacuous_kv :
+  let l := [([109; 111; 100; 101; 108; 32; 110; 97; 109; 101], [65; 58; 66]); ([102; 108; 97; 103; 115], []); ([], [120])] in
+  forallb (wf_kv_line 58) l = true /\ kv_pairs 58 (kv_text 58 l) = l /\
+  (* outside the theorem's hypotheses: trimming, quotes, a line without separator *)
+  kv_pairs 61 [32; 65; 32; 61; 32; 34; 98; 32; 34; 9; 10; 110; 111; 115; 101; 112; 10; 61] = [([65], [98; 32]); ([], [])].
+Proof. vm_compute. repeat split. Qed.
